@@ -1,0 +1,124 @@
+//go:build verif
+
+// Contracts for the deductive verifier in /verif (comment-only file; it
+// contributes no code to any build). Syntax: see /verif/DESIGN.md.
+package local
+
+//@ ghost nblocks(ref) int
+//@ ufunc polImm(ref) bool
+//@ ufunc polD(ref) int
+
+// ---------------------------------------------------------------- Location
+
+//@ func (Location).IsOlder
+//@   ensures [older] result <==> (a.BlockIndex < b.BlockIndex || (a.BlockIndex == b.BlockIndex && a.OffsetBytes < b.OffsetBytes))
+
+// ------------------------------------------------------- growth policies
+//
+// The interface contract abstracts the two implementations: polImm(gp) says
+// which one it is, polD(gp) is its single parameter.
+
+//@ func (immutableBlockListGrowthPolicy).ShouldGrowNewBlocks
+//@   requires 0 <= currentBlocks && currentBlocks <= 1000000000 && 0 <= newBlocks && newBlocks <= 1000000000
+//@   ensures [def] result <==> currentBlocks + newBlocks < gp.desiredCurrentAndNewBlocks
+//@ func (immutableBlockListGrowthPolicy).ShouldGrowCurrentBlocks
+//@   ensures [def] !result
+//@ func (mutableBlockListGrowthPolicy).ShouldGrowNewBlocks
+//@   ensures [def] result <==> newBlocks < 1
+//@ func (mutableBlockListGrowthPolicy).ShouldGrowCurrentBlocks
+//@   ensures [def] result <==> currentBlocks < gp.desiredCurrentBlocks
+
+//@ iface BlockListGrowthPolicy.ShouldGrowNewBlocks
+//@   ensures result <==> ite(polImm(self), currentBlocks + newBlocks < polD(self), newBlocks < 1)
+//@ iface BlockListGrowthPolicy.ShouldGrowCurrentBlocks
+//@   ensures result <==> (!polImm(self) && currentBlocks < polD(self))
+
+// ------------------------------------------------ BlockList (interface)
+//
+// nblocks(bl) is the number of blocks the list currently holds.
+
+//@ iface BlockList.PushBack
+//@   modifies nblocks(self)
+//@   ensures err != nil ==> nblocks(self) == old(nblocks(self))
+//@   ensures err == nil ==> nblocks(self) == old(nblocks(self)) + 1 && nblocks(self) <= 1000000000
+//@ iface BlockList.PopFront
+//@   requires [nonempty] nblocks(self) >= 1
+//@   modifies nblocks(self)
+//@   ensures nblocks(self) == old(nblocks(self)) - 1
+//@ iface BlockList.HasSpace
+//@   requires [index] 0 <= blockIndex && blockIndex < nblocks(self)
+
+// ------------------------------------- OldCurrentNewLocationBlobMap (OCN)
+
+//@ monotone OldCurrentNewLocationBlobMap.totalBlocksToBeReleased rely v <= self.totalBlocksReleased + nblocks(self.blockList)
+
+//@ pure ocnCounts(lbm) = lbm.currentBlocks >= 0 && lbm.newBlocks >= 0
+//@     && len(lbm.oldBlocks) + lbm.currentBlocks + lbm.newBlocks == nblocks(lbm.blockList)
+//@     && lbm.desiredNewBlocksCount >= 1 && lbm.desiredNewBlocksCount <= 62 && lbm.desiredOldBlocksCount >= 0
+//@     && nblocks(lbm.blockList) <= 1000000000
+//@ pure ocnPolicy(lbm) = (polImm(lbm.blockListGrowthPolicy) ==>
+//@         lbm.currentBlocks + lbm.newBlocks <= polD(lbm.blockListGrowthPolicy)
+//@         && lbm.currentBlocks + lbm.desiredNewBlocksCount <= polD(lbm.blockListGrowthPolicy))
+//@     && (!polImm(lbm.blockListGrowthPolicy) ==> lbm.desiredNewBlocksCount == 1)
+//@ pure ocnAlloc(lbm) = -1 <= lbm.allocationBlockIndex
+//@     && (lbm.allocationBlockIndex < lbm.newBlocks || lbm.allocationBlockIndex == -1)
+//@     && lbm.allocationAttemptsRemaining >= 0
+//@     && (lbm.allocationAttemptsRemaining > 0 ==> lbm.allocationBlockIndex >= 0)
+//@ pure ocnQ(lbm) = lbm.totalBlocksReleased <= lbm.totalBlocksToBeReleased
+//@     && lbm.totalBlocksToBeReleased <= lbm.totalBlocksReleased + nblocks(lbm.blockList)
+//@ pure ocnInv(lbm) = ocnCounts(lbm) && ocnPolicy(lbm) && ocnAlloc(lbm) && ocnQ(lbm)
+
+//@ func (*OldCurrentNewLocationBlobMap).popFront
+//@   requires nblocks(lbm.blockList) >= 1
+//@   modifies lbm.totalBlocksReleased, nblocks(lbm.blockList)
+//@   ensures nblocks(lbm.blockList) == old(nblocks(lbm.blockList)) - 1
+//@   ensures lbm.totalBlocksReleased == old(lbm.totalBlocksReleased) + 1
+
+//@ func (*OldCurrentNewLocationBlobMap).removeOldestOldBlock
+//@   requires len(lbm.oldBlocks) >= 1
+//@   modifies lbm.oldBlocks
+//@   ensures len(lbm.oldBlocks) == old(len(lbm.oldBlocks)) - 1
+
+//@ func (*OldCurrentNewLocationBlobMap).resetAllocationBlockIndex
+//@   modifies lbm.allocationBlockIndex, lbm.allocationAttemptsRemaining
+//@   ensures lbm.allocationBlockIndex == -1 && lbm.allocationAttemptsRemaining == 0
+
+//@ func (*OldCurrentNewLocationBlobMap).incrementAllocationBlockIndex
+//@   requires lbm.newBlocks >= 1 && lbm.newBlocks <= 1000000000 && ocnAlloc(lbm)
+//@   requires lbm.desiredNewBlocksCount >= 1 && lbm.desiredNewBlocksCount <= 62
+//@   modifies lbm.allocationBlockIndex, lbm.allocationAttemptsRemaining
+//@   ensures 0 <= lbm.allocationBlockIndex && lbm.allocationBlockIndex < lbm.newBlocks
+//@   ensures lbm.allocationAttemptsRemaining >= 1
+
+//@ func (*OldCurrentNewLocationBlobMap).increaseTotalBlocksToBeReleased
+//@   requires [bound] newValue <= lbm.totalBlocksReleased + nblocks(lbm.blockList)
+//@   requires [upper] lbm.totalBlocksToBeReleased <= lbm.totalBlocksReleased + nblocks(lbm.blockList)
+//@   modifies lbm.totalBlocksToBeReleased
+//@   ensures [reached] lbm.totalBlocksToBeReleased >= newValue
+//@   ensures [monotone] lbm.totalBlocksToBeReleased >= old(lbm.totalBlocksToBeReleased)
+//@   ensures [upper] lbm.totalBlocksToBeReleased <= lbm.totalBlocksReleased + nblocks(lbm.blockList)
+//@   ensures [delta] result <= newValue
+//@   loop 0 invariant lbm.totalBlocksToBeReleased >= old(lbm.totalBlocksToBeReleased)
+//@   loop 0 invariant lbm.totalBlocksToBeReleased <= lbm.totalBlocksReleased + nblocks(lbm.blockList)
+
+//@ func (*OldCurrentNewLocationBlobMap).findBlockWithSpace
+//@   requires ocnInv(lbm)
+//@   modifies lbm.oldBlocks, lbm.currentBlocks, lbm.newBlocks, lbm.totalBlocksReleased, lbm.totalBlocksToBeReleased,
+//@            lbm.allocationBlockIndex, lbm.allocationAttemptsRemaining, nblocks(lbm.blockList)
+//@   ensures [inv] ocnInv(lbm)
+//@   ensures [index] err == nil ==> len(lbm.oldBlocks) + lbm.currentBlocks <= result0 && result0 < nblocks(lbm.blockList)
+//@   ensures [old-bounded] err == nil ==> len(lbm.oldBlocks) <= max(lbm.desiredOldBlocksCount, old(len(lbm.oldBlocks)))
+//@   ensures [quarantine] err == nil ==> lbm.totalBlocksReleased >= old(lbm.totalBlocksToBeReleased)
+//@   loop 0 invariant ocnCounts(lbm) && ocnPolicy(lbm) && ocnAlloc(lbm) && ocnQ(lbm)
+//@   loop 0 invariant totalBlocksToBeReleased <= lbm.totalBlocksReleased + nblocks(lbm.blockList)
+//@   loop 0 invariant totalBlocksToBeReleased >= old(lbm.totalBlocksToBeReleased)
+//@   loop 0 invariant len(lbm.oldBlocks) <= old(len(lbm.oldBlocks))
+//@   loop 1 invariant ocnInv(lbm)
+//@   loop 1 invariant len(lbm.oldBlocks) <= old(len(lbm.oldBlocks))
+//@   loop 1 invariant lbm.totalBlocksReleased >= old(lbm.totalBlocksToBeReleased)
+//@   loop 2 invariant ocnInv(lbm) && lbm.newBlocks >= 1
+//@   loop 2 invariant len(lbm.oldBlocks) <= max(lbm.desiredOldBlocksCount, old(len(lbm.oldBlocks)))
+//@   loop 2 invariant lbm.totalBlocksReleased >= old(lbm.totalBlocksToBeReleased)
+//@   loop 3 invariant ocnInv(lbm) && lbm.newBlocks >= 1
+//@   loop 3 invariant len(lbm.oldBlocks) <= max(lbm.desiredOldBlocksCount, old(len(lbm.oldBlocks)))
+//@   loop 3 invariant lbm.totalBlocksReleased >= old(lbm.totalBlocksToBeReleased)
